@@ -8,7 +8,7 @@ from ..cfg import NORMAL, Node
 from ..core import Ctx
 from ..flow import ALL, find_path, names_in, rhs_of
 from ..model import AnalysisError, ClassInfo, FunctionInfo, dotted, norm_text
-from .common import edge_target, kwarg, reachable_from
+from .common import effective_returns, edge_target, kwarg, reachable_from
 
 EXPLANATION = (
     "Static analysis of path provenance: (R1) an interprocedural taint-style def-use analysis - every filesystem sink of the "
@@ -336,9 +336,9 @@ def r2(ctx: Ctx) -> None:
         # the return of the resolved path is dominated by the inside-test; the not-inside edge raises ValueError
         brs = inside_branches(ctx, f)
         rets = []
-        for n in g.nodes:
-            if n.kind == "return" and n.id in g.reachable() and isinstance(n.ast.value, ast.Name):  # type: ignore[union-attr]
-                ds = ctx.rd(f).reaching(n.id, n.ast.value.id)  # type: ignore[union-attr]
+        for n, v_ in effective_returns(ctx, f):
+            if isinstance(v_, ast.Name):
+                ds = ctx.rd(f).reaching(n.id, v_.id)
                 if ds and all(isinstance(g.nodes[d].ast, ast.Assign) and "os.path.realpath" in norm_text(g.nodes[d].ast.value) for d in ds):
                     rets.append(n)
         if not brs or not rets:
@@ -371,12 +371,11 @@ def r2(ctx: Ctx) -> None:
         g = ctx.cfg(f)
         inside_b = inside_branches(ctx, f)
         local_b = [b for b in g.nodes if b.kind == "branch" and "LocalStorageBackend" in b.text]
-        for r in [n for n in g.nodes if n.kind == "return" and n.id in g.reachable()]:
+        for r, v in effective_returns(ctx, f):
             if local_b:
                 t = edge_target(g, local_b[0], "true")
                 if t is None or r.id not in reachable_from(g, t, NORMAL):
                     continue  # S3 branch / unknown-backend fallback: outside the local-filesystem model
-            v = r.ast.value  # type: ignore[union-attr]
             ok = False
             why = norm_text(v) if v is not None else "None"
             if isinstance(v, ast.Call) and (dotted(v.func) or "").split(".")[-1] in SANITISERS:
